@@ -420,3 +420,168 @@ K("dt.level4_validate", ["C04", "C05"], DT, "dt.rs", "level4_validate_contract",
   claim="DelaunayTriangulation::validate == Triangulation::validate (Levels 1-3) && is_valid (Level 4)",
   mutant=dict(file=DT, old="        self.tri.validate()?;\n        self.is_valid()\n", new="        self.tri.validate()?;\n        Ok(())\n",
               desc="the Level-4 call dropped from validate()"))
+
+K("dt.record_insertion", ["C01", "C19"], DT, "dt_stats.rs", "record_insertion_contract", "K-full",
+  [fn(DT, "record_insertion"), fn(DT, "record_common"), fn(DT, "total_skipped")], timeout=1200,
+  bounded="attempts <= 8 (call-site bound 1 + max perturbation attempts; histogram resize loop fully unwound); each counter <= isize::MAX/4 (they count distinct elements of one input slice)",
+  obligations=["count-inserted", "count-duplicate", "count-degeneracy", "conservation", "histogram", "monotone"],
+  claim="ConstructionStatistics::record_insertion: for every counter state and every result, exactly one of inserted / skipped_duplicate / skipped_degeneracy grows, by exactly 1, chosen by the result",
+  mutant=dict(file=DT, old="        } else if stats.skipped() {\n            self.skipped_degeneracy = self.skipped_degeneracy.saturating_add(1);\n        } else {",
+              new="        } else if stats.skipped() {\n            self.skipped_degeneracy = self.skipped_degeneracy.saturating_add(1);\n            self.inserted = self.inserted.saturating_add(1);\n        } else {",
+              desc="`inserted` incremented for a skipped vertex"))
+
+# ======================================================================================
+# C14 / C05 / C19 : comparators and element-level validity (vertex.rs, point.rs, uuid.rs)
+# ======================================================================================
+VTX = "src/core/vertex.rs"
+PT = "src/geometry/point.rs"
+for d, tier in [(2, "quick"), (3, "thorough")]:
+    K(f"order.point.d{d}", ["C14"], VTX, "vertex.rs", f"point_order_d{d}", "K-full",
+      [dict(file=PT, name="Point::partial_cmp", anchor=r"fn partial_cmp\(&self, other: &Self\) -> Option<Ordering>", within=r"impl<T, const D: usize> PartialOrd for Point<T, D>"),
+       dict(file=VTX, name="Vertex::partial_cmp", anchor=r"fn partial_cmp\(&self, other: &Self\) -> Option<Ordering>", within=r"impl<T, U, const D: usize> PartialOrd for Vertex<T, U, D>"),
+       dict(file=VTX, name="Vertex::eq", anchor=r"fn eq\(&self, other: &Self\) -> bool", within=r"impl<T, U, const D: usize> PartialEq for Vertex<T, U, D>")],
+      tier=tier, timeout=900,
+      obligations=["total", "lexicographic", "antisymmetric", "transitive", "transitive-eq", "eq-consistent", "vertex-cmp-coords-only", "vertex-eq-coords-only"],
+      assumed=["slice::sort_by is a comparator-respecting permutation (std contract, not verified)"],
+      claim=f"Point<f64,{d}>::partial_cmp for ALL f64 triples: total, lexicographic under ordered-float semantics, antisymmetric, transitive; Vertex comparison/equality depend on coordinates only "
+            "=> for distinct coordinates the sort key of the ordering strategies does not depend on the caller's order",
+      mutant=dict(file=VTX, old="        self.point.partial_cmp(&other.point)\n", new="        (self.point, self.uuid).partial_cmp(&(other.point, other.uuid))\n",
+                  desc="vertex ordering starts to depend on the UUID") if d == 2 else None)
+for d, tier in [(2, "quick"), (3, "thorough"), (5, "thorough")]:
+    K(f"valid.vertex.d{d}", ["C05", "C19", "C02"], VTX, "vertex.rs", f"vertex_valid_d{d}", "K-full",
+      [fn(VTX, "is_valid", anchor=r"pub fn is_valid\(self\) -> Result<\(\), VertexValidationError>"),
+       dict(file=PT, name="Point::validate", anchor=r"fn validate\(&self\) -> Result<\(\), CoordinateValidationError>"),
+       dict(file="src/core/util/uuid.rs", name="validate_uuid", anchor=r"pub const fn validate_uuid")],
+      tier=tier, timeout=900, assumed=["alloc::fmt::format stubbed (error message text not modelled)"],
+      obligations=["point-finite", "uuid-v4", "vertex-valid"],
+      claim=f"Vertex<f64,(),{d}>::is_valid / Point::validate / validate_uuid for every [f64; {d}] and every 128-bit UUID: Ok <=> all coordinates finite and UUID non-nil v4",
+      mutant=dict(file=PT, old="            if !coord.is_finite_generic() {\n                return Err(CoordinateValidationError::InvalidCoordinate {",
+                  new="            if coord.is_nan() {\n                return Err(CoordinateValidationError::InvalidCoordinate {",
+                  desc="infinite coordinates pass Point::validate") if d == 2 else None)
+
+# ======================================================================================
+# C15 : Euler characteristic arithmetic (K-full per f-vector length)
+# ======================================================================================
+for n, tier in [(3, "quick"), (4, "quick"), (1, "thorough"), (2, "thorough"), (5, "thorough"), (6, "thorough")]:
+    K(f"euler.len{n}", ["C15"], EULER, "euler.rs", f"euler_len{n}", "K-full", [fn(EULER, "euler_characteristic")], tier=tier, timeout=600,
+      obligations=["alternating-sum"] + (["v-e-f"] if n == 3 else []),
+      bounded="entries < 2^40 (so the isize sum cannot overflow); one harness per f-vector length 1..=6 (all D <= 5)",
+      claim=f"euler_characteristic == sum (-1)^k f_k for every f-vector of length {n}",
+      mutant=dict(file=EULER, old="let sign = if k % 2 == 0 { 1 } else { -1 };", new="let sign = if k % 2 == 0 || k == 3 { 1 } else { -1 };",
+                  desc="the sign of f_3 flipped") if n == 4 else None)
+
+# ======================================================================================
+# C17 / C09 : dedup soundness under an arbitrary duplicate relation (K-bounded in N)
+# ======================================================================================
+DEDUP = "src/core/util/deduplication.rs"
+_DEDUP_OBL = [f"{t}-{k}" for t in ("exact", "epsilon") for k in ("no-growth", "no-invention", "intact", "no-duplication", "greedy", "order")] + ["filter-exact", "filter-nothing-else"]
+for n, tier, to in [(3, "quick", 900), (2, "thorough", 600), (4, "thorough", 2400)]:
+    K(f"dedup.n{n}", ["C17", "C09"], DEDUP, "dedup.rs", f"dedup_n{n}", "K-bounded",
+      [fn(DEDUP, "dedup_vertices_exact"), fn(DEDUP, "dedup_vertices_epsilon"), fn(DEDUP, "filter_vertices_excluding")],
+      tier=tier, timeout=to, obligations=_DEDUP_OBL, no_playback=True,
+      bounded=f"input length N = {n} (concrete length, arbitrary duplicate relation); 'for all N' is NOT claimed",
+      assumed=["coords_equal_exact / coords_within_epsilon replaced by an ARBITRARY symmetric relation table (stub); the relation's own float definition is not verified here"],
+      claim=f"dedup_vertices_exact / dedup_vertices_epsilon / filter_vertices_excluding on {n} vertices, for every duplicate relation: output == greedy filter "
+            "(subsequence of the input, survivors pairwise unrelated, every dropped vertex related to an earlier survivor; UUID/data/coords intact)",
+      mutant=dict(file=DEDUP, old="            if coords_within_epsilon(v.point().coords(), u.point().coords(), epsilon) {\n                continue 'outer; // Skip near-duplicate\n            }\n        }\n\n        unique.push(v);",
+                  new="            if coords_within_epsilon(v.point().coords(), u.point().coords(), epsilon) {\n                continue 'outer; // Skip near-duplicate\n            }\n            break;\n        }\n\n        unique.push(v);",
+                  desc="epsilon dedup only compares against the first survivor") if n == 3 else None)
+
+# ======================================================================================
+# C14 / C17 : ordering strategies and private dedup fallbacks (delaunay_triangulation.rs)
+# ======================================================================================
+K("order.hilbert", ["C14", "C17"], DT, "dt_order.rs", "hilbert_order_independent_contract", "K-callee",
+  [fn(DT, "order_vertices_hilbert"), fn(DT, "hilbert_bits_per_coord")], timeout=1200, no_playback=True,
+  bounded="N = 2 vertices, D = 2 (every pair of finite coordinate tuples with distinct first coordinate)",
+  assumed=["hilbert_quantize (stub): the grid cell is an arbitrary function of the coordinates alone; hilbert_indices_prequantized (stub): index is a function of the cell (injectivity proved by hilbert.*)",
+           "slice::sort_by is a comparator-respecting permutation (executed by CBMC at N = 2)"],
+  obligations=["hilbert-length", "hilbert-permutation", "hilbert-order-free"],
+  claim="order_vertices_hilbert on two vertices with distinct coordinates: a permutation, and the same output sequence whichever order the caller listed them (also when both fall into one grid cell)",
+  mutant=dict(file=DT, old="            .then_with(|| a_vertex.partial_cmp(b_vertex).unwrap_or(Ordering::Equal))\n            .then_with(|| a_in.cmp(b_in))",
+              new="            .then_with(|| a_in.cmp(b_in))", desc="Hilbert tie-break by coordinates removed (falls through to input position)"))
+K("order.lexicographic", ["C14", "C17"], DT, "dt_order.rs", "lexicographic_order_independent_contract", "K-bounded",
+  [fn(DT, "order_vertices_lexicographic"), fn(DT, "vertex_coordinate_hash")], timeout=1200, no_playback=True,
+  bounded="N = 2 vertices, D = 2, all f64 values incl. NaN / infinities / signed zeros",
+  obligations=["lex-permutation", "lex-order-free"],
+  claim="order_vertices_lexicographic on two vertices with distinct coordinates: a permutation, independent of the caller's order")
+K("order.seed", ["C14"], DT, "dt_order.rs", "shuffle_seed_order_free_contract", "K-bounded",
+  [fn(DT, "construction_shuffle_seed"), dict(file="src/core/util/hashing.rs", name="stable_hash_u64_slice", anchor=r"pub fn stable_hash_u64_slice")],
+  tier="thorough", timeout=1800, no_playback=True, bounded="N <= 3 vertices", obligations=["seed-order-free", "seed-order-free-2"],
+  claim="construction_shuffle_seed is identical for every order of the same 2 or 3 vertices")
+for d, unw, tier in [(2, 34, "thorough"), (3, 23, "quick"), (4, 18, "thorough"), (5, 14, "thorough")]:
+    K(f"morton.d{d}", ["C17", "C14"], DT, "dt_order.rs", f"morton_d{d}", "K-full", [fn(DT, "morton_code"), fn(DT, "morton_bits_per_coord")],
+      tier=tier, timeout=1200, obligations=["morton-bits", "morton-injective"],
+      claim=f"morton_code::<{d}> is injective on all {d}-tuples of (64/{d})-bit coordinates; bits per coordinate = 64/D",
+      mutant=dict(file=DT, old="            let b = (q >> bit) & 1;\n            code = (code << 1) | b;", new="            let b = (q >> bit) & 1;\n            code = (code << 1) ^ b ^ (code & 1);",
+                  desc="Morton interleave mixes neighbouring bits") if d == 3 else None)
+K("dedup.quantized_fallback", ["C17"], DT, "dt_order.rs", "quantized_fallback_contract", "K-callee",
+  [fn(DT, "dedup_vertices_epsilon_quantized")], timeout=1200, no_playback=True,
+  bounded="3 input vertices; the first vertex is the one that cannot be bucketed (bucket-map insertions do not fit in CBMC)",
+  assumed=["quantize_coords (stub): returns None; dedup_vertices_epsilon_n2 (stub): identity, records its input (proved greedy by dedup.n* for the public twins)"],
+  obligations=["fallback-complete", "fallback-result"],
+  claim="dedup_vertices_epsilon_quantized: when coordinates cannot be bucketed, the O(n^2) path receives the complete input in order (no vertex lost)")
+
+# ======================================================================================
+# C11 : convex hull staleness protocol (K-callee, one query per harness)
+# ======================================================================================
+HULL = "src/geometry/algorithms/convex_hull.rs"
+_HULL_ASSUME = ["arc-swap replaced by the sequential stub (stubs/arc-swap)", "Tds::generation (stub): returns the counter value chosen by the harness (contract proved by tds.generation)",
+                "Tds::build_facet_to_cells_map (stub): only records that it was reached"]
+K("hull.validity", ["C11"], HULL, "hull.rs", "hull_validity_contract", "K-callee",
+  [fn(HULL, "is_valid_for_triangulation"), fn(HULL, "invalidate_cache")], timeout=900, assumed=_HULL_ASSUME,
+  obligations=["valid-iff-same-generation", "invalidate-keeps-creation", "empty-valid", "unset-nonempty-invalid"],
+  claim="ConvexHull::is_valid_for_triangulation <=> creation generation == triangulation generation, for all pairs of u64 generations; invalidate_cache leaves the creation generation alone",
+  mutant=dict(file=HULL, old=".map_or(self.is_empty(), |&g| g == tri.tds.generation())", new=".map_or(self.is_empty(), |&g| g <= tri.tds.generation())",
+              desc="hull considered valid for any newer triangulation generation"))
+for nm, fname, tier in [("validate", "validate", "quick"), ("is_point_outside", "is_point_outside", "quick"), ("find_visible", "find_visible_facets", "thorough"),
+                        ("find_nearest", "find_nearest_visible_facet", "thorough"), ("facet_visible", "is_facet_visible_from_point", "thorough")]:
+    K(f"hull.stale.{nm}", ["C11", "C19"], HULL, "hull.rs", f"hull_stale_{nm}", "K-callee",
+      [fn(HULL, fname, anchor=r"pub fn " + fname + r"\(")], tier=tier, timeout=1800, assumed=_HULL_ASSUME,
+      obligations=["stale-" + nm.replace("_", "-"), "no-cache-work"],
+      bounded="hull with 1..2 facet handles; all pairs of distinct u64 generations; any query point",
+      claim=f"ConvexHull::{fname} on a hull whose triangulation changed (generation differs) returns StaleHull before any cache build or facet access",
+      mutant=dict(file=HULL, old="        let visible_facets = self.find_visible_facets(point, tri)?;\n        Ok(!visible_facets.is_empty())",
+                  new="        let visible_facets = self.find_visible_facets(point, tri).unwrap_or_default();\n        Ok(!visible_facets.is_empty())",
+                  desc="is_point_outside swallows the StaleHull error") if nm == "is_point_outside" else None)
+
+K("tri.validation_report", ["C05"], TRI, "triangulation.rs", "validation_report_contract", "K-callee",
+  [fn(TRI, "validation_report", anchor=r"pub\(crate\) fn validation_report\(&self\) -> Result<\(\), TriangulationValidationReport>")], timeout=1500,
+  obligations=["report-iff-validate", "all-consulted", "nonempty-err", "mapping-stop"], assumed=[_ASSUME_VALIDATORS],
+  bounded="element loops over vertices / cells run on the empty Tds (0 elements); the call structure around them is unbounded",
+  claim="Triangulation::validation_report is empty <=> structural report && Level 3 && completion-time check all pass (F7 fixed: the same conjunction validate() decides)",
+  mutant=dict(file=TRI, old="        if violations.is_empty()\n            && let Err(e) = self.validate_at_completion()\n        {", new="        if false\n            && let Err(e) = self.validate_at_completion()\n        {",
+              desc="completion-time check no longer reported (F7 regression)"))
+
+# ======================================================================================
+# C04 : the k=2 violation formula (V-slices of delaunay_violation_k2_for_facet)
+# ======================================================================================
+_VIOL = r"\bfn\s+delaunay_violation_k2_for_facet\b"
+V("violation_formula", ["C04"], [
+    dict(kind="type", file=FLIPS, anchor=r"enum RepairQueueOrder\s*\{", name="RepairQueueOrder", derive="#[derive(Clone, Copy)]"),
+    dict(kind="type", file=FLIPS, anchor=r"struct RepairAttemptConfig\s*\{", name="RepairAttemptConfig", derive="#[derive(Clone, Copy)]"),
+    dict(kind="slice", file=FLIPS, anchor=_VIOL, name="slice_both_positive_artifact", generics="<const D: usize>",
+         stmt=r"let both_positive_artifact =[^;]*;", params="config: &RepairAttemptConfig, in_a: i32, in_b: i32", ret="bool", result="both_positive_artifact",
+         contract=dict(ensures=["r == (D >= 4 && config.use_robust_on_ambiguous && in_a > 0 && in_b > 0)"])),
+    dict(kind="slice", file=FLIPS, anchor=_VIOL, name="slice_violates",
+         stmt=r"let violates =[^;]*;", params="both_positive_artifact: bool, in_a: i32, in_b: i32", ret="bool", result="violates",
+         contract=dict(ensures=["r == (!both_positive_artifact && (in_a > 0 || in_b > 0))"])),
+], lemmas="""
+// composition of the two statements, as the function executes them
+fn violation_verdict<const D: usize>(config: &RepairAttemptConfig, in_a: i32, in_b: i32) -> (r: bool)
+    ensures
+        r == ((in_a > 0 || in_b > 0) && !(D >= 4 && config.use_robust_on_ambiguous && in_a > 0 && in_b > 0)),
+        // D <= 3: a facet is accepted only if neither apex tested strictly inside
+        D <= 3 ==> (!r ==> (in_a <= 0 && in_b <= 0)),
+        // the D >= 4 suppression is confined to "both strictly positive under robust predicates"
+        (!r && (in_a > 0 || in_b > 0)) ==> (D >= 4 && config.use_robust_on_ambiguous && in_a > 0 && in_b > 0),
+        // exactly one apex strictly inside is always a violation, in every dimension
+        ((in_a > 0) != (in_b > 0)) ==> r,
+{
+    let a = slice_both_positive_artifact::<D>(config, in_a, in_b);
+    slice_violates(a, in_a, in_b)
+}
+""",
+  claim="the two statements that decide a k=2 Delaunay violation: violates == (an apex strictly inside) minus the D>=4 both-positive artefact; D <= 3: not violates => both in-sphere signs <= 0. "
+        "A V-slice pins the FORMULA, not that the function returns it (everything else in the function is dropped)",
+  mutant=dict(file=FLIPS, old="let both_positive_artifact = D >= 4 && config.use_robust_on_ambiguous && in_a > 0 && in_b > 0;",
+              new="let both_positive_artifact = D >= 3 && config.use_robust_on_ambiguous && in_a > 0 && in_b > 0;", desc="D >= 4 artefact suppression widened to D >= 3"))
